@@ -104,6 +104,72 @@ def translate(repo: Path) -> dict:
     if not st_sha:
         raise T.TranslateError("changes_from_tree: sha comparison not found")
 
+    # --- mode comparison in _check_entry_for_changes (`_mode_changed(...)` or a comparison with entry.mode), its
+    # position relative to the stat short-cut, and whether porcelain.status / add ask for it
+    def calls(node, name):
+        return [n for n in ast.walk(node) if isinstance(n, ast.Call) and
+                ((isinstance(n.func, ast.Name) and n.func.id == name) or (isinstance(n.func, ast.Attribute) and n.func.attr == name))]
+    mode_calls = calls(ce, "_mode_changed")
+    stat_calls = calls(ce, "_stat_matches_entry")
+    ptree = T.module_ast(repo / "dulwich" / "porcelain" / "__init__.py")
+    if mode_calls:
+        asked = []
+        for fn in ("status", "add"):
+            f = T.find_def(ptree, fn)
+            cs = calls(f, "get_unstaged_changes")
+            if not cs:
+                raise T.TranslateError(f"porcelain.{fn}: call of get_unstaged_changes not found")
+            asked.append(all(any(k.arg == "honor_filemode" for k in c.keywords) for c in cs))
+        un_mode = all(asked)
+    mode_before = bool(mode_calls and stat_calls and mode_calls[0].lineno < stat_calls[0].lineno)
+    if not stat_calls:
+        raise T.TranslateError("_check_entry_for_changes: call of _stat_matches_entry not found")
+
+    # --- WorkTree.unstage: handlers around os.lstat
+    wtree = T.module_ast(repo / "dulwich" / "worktree.py")
+    un = T.find_def(wtree, "WorkTree.unstage")
+    un_excs = set()
+    for n in ast.walk(un):
+        if isinstance(n, ast.Try) and any(isinstance(c, ast.Call) and isinstance(c.func, ast.Attribute) and c.func.attr == "lstat" for c in ast.walk(n)):
+            for h in n.handlers:
+                for e in ([h.type] if not isinstance(h.type, ast.Tuple) else h.type.elts):
+                    if isinstance(e, ast.Name):
+                        un_excs.add(e.id)
+    if not un_excs:
+        raise T.TranslateError("WorkTree.unstage: try/except around os.lstat not found")
+    unstage_catches = bool(un_excs & {"NotADirectoryError", "OSError"})
+
+    # --- path_to_tree_path: is a symbolic link resolved before the lookup?
+    pt = T.find_def(ptree, "path_to_tree_path")
+    if not calls(pt, "resolve"):
+        raise T.TranslateError("path_to_tree_path: no call of resolve()")
+    guarded = any(isinstance(st_, ast.If) and isinstance(st_.test, ast.Call) and isinstance(st_.test.func, ast.Attribute)
+                  and st_.test.func.attr == "is_symlink" for st_ in pt.body)
+    resolves_links = not guarded
+
+    # --- _walk_working_dir_paths: links to directories stay among os.walk's directory names?
+    wk = T.find_def(ptree, "_walk_working_dir_paths")
+    if not calls(wk, "walk"):
+        raise T.TranslateError("_walk_working_dir_paths: os.walk not found")
+    link_dirs_as_dirs = not calls(wk, "islink")
+
+    # --- tree_path_to_fs_path: strict decoding?
+    tf = T.find_def(ptree, "tree_path_to_fs_path")
+    dec = calls(tf, "decode")
+    if not dec:
+        raise T.TranslateError("tree_path_to_fs_path: decode() not found")
+    strict_decode = all(len(c.args) < 2 and not c.keywords for c in dec)
+
+    # --- update_working_tree: deletions applied in a loop of their own, before the writes?
+    uw = T.find_def(tree, "update_working_tree")
+    loops = [n for n in uw.body if isinstance(n, ast.For)]
+    del_loops = [n for n in loops if calls(n, "_transition_to_absent")]
+    add_loops = [n for n in loops if calls(n, "_transition_to_file")]
+    if not del_loops or not add_loops:
+        raise T.TranslateError("update_working_tree: the loops applying the changes were not found")
+    deletes_first = del_loops[0] is not add_loops[0] and del_loops[0].lineno < add_loops[0].lineno and \
+        not calls(add_loops[0], "_transition_to_absent")
+
     dotnames = T.const_value(tree, "INVALID_DOTNAMES")
     if not isinstance(dotnames, tuple) or not all(isinstance(x, bytes) for x in dotnames):
         raise T.TranslateError("INVALID_DOTNAMES is not a tuple of bytes")
@@ -111,8 +177,9 @@ def translate(repo: Path) -> dict:
     def b(x):
         return "true" if x else "false"
 
-    src = T.lean_header("dulwich/index.py: cleanup_mode, _stat_matches_entry, _check_entry_for_changes, "
-                        "changes_from_tree, INVALID_DOTNAMES") + f"""
+    src = T.lean_header("dulwich/index.py: cleanup_mode, _stat_matches_entry, _check_entry_for_changes, changes_from_tree, "
+                        "update_working_tree, INVALID_DOTNAMES; porcelain: status, add, path_to_tree_path, "
+                        "tree_path_to_fs_path, _walk_working_dir_paths; worktree.py: WorkTree.unstage") + f"""
 namespace Dulwich.Gen.WorkTree
 /-- `ret = stat.S_IFREG | 0o644` in `cleanup_mode` -/
 def regFileMode : Nat := {reg_base}
@@ -131,6 +198,18 @@ def trustCtimeDefault : Bool := {b(trust_default)}
 /-- `_check_entry_for_changes`: the index entry fields compared with the file once the short-cut fails -/
 def unstagedCmpSha : Bool := {b(un_sha)}
 def unstagedCmpMode : Bool := {b(un_mode)}
+/-- the mode is looked at before `_stat_matches_entry` is trusted -/
+def unstagedModeBeforeStat : Bool := {b(mode_before)}
+/-- `WorkTree.unstage` handles `NotADirectoryError` around `os.lstat` -/
+def unstageCatchesNotDir : Bool := {b(unstage_catches)}
+/-- `path_to_tree_path` resolves a symbolic link itself (not only its directory) -/
+def lookupResolvesLinks : Bool := {b(resolves_links)}
+/-- `_walk_working_dir_paths` leaves links to directories among `os.walk`'s directory names -/
+def walkLinkDirsAsDirs : Bool := {b(link_dirs_as_dirs)}
+/-- `tree_path_to_fs_path` decodes strictly (raises on paths that are not valid in the tree encoding) -/
+def strictPathDecoding : Bool := {b(strict_decode)}
+/-- `update_working_tree` applies all deletions before it writes -/
+def switchDeletesFirst : Bool := {b(deletes_first)}
 /-- `_check_entry_for_changes` has a handler for `NotADirectoryError` / `OSError` around `os.lstat` -/
 def unstagedCatchesNotDir : Bool := {b(catches_notdir)}
 /-- `changes_from_tree`: `other_sha != sha or other_mode != mode` -/
@@ -1239,7 +1318,7 @@ def _pick_edit(rng, sc: Scen, profile):
                 continue
             p = rng.choice(cand)
             via = "worktree"
-            if rng.random() < 0.25 and p in snap and snap[p]["kind"] != "l" and is_utf8(p):
+            if rng.random() < 0.25 and p in snap and snap[p]["kind"] != "l":
                 via = "porcelain"
             return {"op": "stage", "path": hx(p), "via": via, "tag": k}
         if k == "unstage":
@@ -1248,9 +1327,9 @@ def _pick_edit(rng, sc: Scen, profile):
                 continue
             return {"op": "unstage", "path": hx(rng.choice(cand)), "tag": k}
         if k == "rmc":
-            # porcelain.remove resolves symbolic links in the path it is given (it would remove the link's
-            # target from the index): only paths that involve no link are used here
-            cand = [p for p in idx if not any(q in snap and snap[q]["kind"] == "l" for q in [p] + ancestors(p))]
+            # porcelain.remove resolves the directories of the path it is given: only paths that are not below a
+            # symbolic link are used here (the path itself may be a link: it is removed under its own name)
+            cand = [p for p in idx if not any(q in snap and snap[q]["kind"] == "l" for q in ancestors(p))]
             if not cand:
                 continue
             return {"op": "rmc", "path": hx(rng.choice(cand)), "tag": k}
